@@ -510,6 +510,34 @@ def r1_key_normalisation(rep, src):
         rep.fail('C09.R1', UT + ':' + cname, 'hash/eq on the lowered text, str() the original', why)
 
 
+def r5_copy_protocol(rep, src):
+    """the key order of a paragraph lives in a linked list whose back links are weak references.  The copy module (copy.deepcopy,
+    copy.copy) and pickle treat a weak reference as an atom: a deep copy keeps the back links pointing into the *original* list,
+    and pickling fails.  A class that stores weakref.ref(...) in an attribute therefore has to say how it is copied
+    (__deepcopy__ / __reduce__ / __getstate__), or the containers built from it do."""
+    mod = src.mod('_util')
+    n = 0
+    for cname in sorted(mod.classes):
+        stores = [st for q, fn in mod.funcs.items() if q.startswith(cname + '.') for st in ast.walk(fn.node)
+                  if isinstance(st, ast.Assign) and any(isinstance(t, ast.Attribute) and norm(t.value) == 'self' for t in st.targets)
+                  and any(isinstance(c, ast.Call) and norm(c.func) in ('weakref.ref', 'ref', 'weakref.proxy') for c in ast.walk(st.value))]
+        if not stores:
+            continue
+        n += 1
+        owners = [cname] + [c2 for c2 in mod.classes if any(isinstance(x, ast.Call) and norm(x.func) == cname for q, fn in mod.funcs.items() if q.startswith(c2 + '.') for x in ast.walk(fn.node))]
+        protocol = [c2 for c2 in owners if any(mod.method(c2, m_) is not None for m_ in ('__deepcopy__', '__reduce__', '__reduce_ex__', '__getstate__'))]
+        what = 'objects with weak back links define how they are copied'
+        if protocol:
+            rep.ok('C09.R5', '_util:' + cname, what, 'copy protocol in %s' % ', '.join(protocol))
+        else:
+            rep.fail('C09.R5', '_util:' + cname, what, '%s stores weakref.ref(...) in %s and neither it nor %s defines __deepcopy__ / __reduce__: copy.deepcopy() of a paragraph '
+                     'leaves the back links of the copy pointing at the nodes of the original (deleting or re-ordering a field in the copy changes the key order of the original), '
+                     'and pickle.dumps() of a paragraph with two or more fields raises TypeError' % (cname, norm(stores[0].targets[0]), ' / '.join(owners[1:]) or 'its container'),
+                     where='%s:%d' % (mod.relpath, stores[0].lineno))
+    if n < 1:
+        raise AnalysisError('no class with weak references found in _util (the linked list changed?)')
+
+
 def check(src, rep, tier):
     rep.explanation = ('C09: the methods of LinkedListNode/LinkedList/OrderedSet are interpreted by a heap-shape abstract interpreter on '
                        'symbolic heaps covering every pointer-equality pattern (lists of 0..3 nodes × position of the argument node); after '
@@ -525,3 +553,5 @@ def check(src, rep, tier):
     rep.guard('C09.R3', r3_list_shapes, src, tier)
     rep.guard('C09.R2', r2_r4_orderedset, src, tier)
     rep.guard('C09.R1', r1_key_normalisation, src)
+    rep.need('C09.R5', 1)
+    rep.guard('C09.R5', r5_copy_protocol, src)
